@@ -154,7 +154,7 @@ fn wide_pass(thorough: bool, acc: &mut Acc) -> Vec<u32> {
 }
 
 pub fn run(run: Run) -> ! {
-    let nmax = if run.is_thorough() { 8 } else { 6 };
+    let nmax = if run.is_thorough() { 9 } else { 6 };
     let npat = if run.is_thorough() { 12 } else { 6 };
     let thetas = theta();
     let grids: Vec<Vec<f32>> = thetas.iter().map(|th| tau(th, 32)).collect();
